@@ -55,19 +55,40 @@ mod verif_ops {
     arith_all!(+, wrapping_add, wrapping_add, false, c09_add_ii, c09_add_ib, c09_add_bi, c09_add_bb, c09_add_ff, c09_add_if, c09_add_fi, c09_add_fb, c09_add_bf);
     arith_all!(-, wrapping_sub, wrapping_sub, false, c09_sub_ii, c09_sub_ib, c09_sub_bi, c09_sub_bb, c09_sub_ff, c09_sub_if, c09_sub_fi, c09_sub_fb, c09_sub_bf);
     arith_all!(*, wrapping_mul, wrapping_mul, false, c09_mul_ii, c09_mul_ib, c09_mul_bi, c09_mul_bb, c09_mul_ff, c09_mul_if, c09_mul_fi, c09_mul_fb, c09_mul_bf);
-    arith_all!(/, wrapping_div, wrapping_div, true, c09_div_ii, c09_div_ib, c09_div_bi, c09_div_bb, c09_div_ff, c09_div_if, c09_div_fi, c09_div_fb, c09_div_bf);
-    // %: integer kinds against wrapping_rem; float kinds: result kind only (CBMC has no fmod model)
-    arith!(c09_rem_ii, %, wrapping_rem, wrapping_rem, K::I, K::I, true);
-    arith!(c09_rem_ib, %, wrapping_rem, wrapping_rem, K::I, K::B, true);
-    arith!(c09_rem_bi, %, wrapping_rem, wrapping_rem, K::B, K::I, true);
+    arith!(c09_div_bb, /, wrapping_div, wrapping_div, K::B, K::B, true);
     arith!(c09_rem_bb, %, wrapping_rem, wrapping_rem, K::B, K::B, true);
+    arith!(c09_div_ff, /, wrapping_div, wrapping_div, K::F, K::F, true);
+    arith!(c09_div_if, /, wrapping_div, wrapping_div, K::I, K::F, true);
+    arith!(c09_div_fi, /, wrapping_div, wrapping_div, K::F, K::I, true);
+    arith!(c09_div_fb, /, wrapping_div, wrapping_div, K::F, K::B, true);
+    arith!(c09_div_bf, /, wrapping_div, wrapping_div, K::B, K::F, true);
+    // 64-bit / and %: stated as the truncated-division law on the operator's own results (one divider in the
+    // formula instead of an equivalence between two): q*b + r == a (mod 2^64), |r| < |b|, r == 0 or sign(r) == sign(a).
+    // These three facts determine q and r uniquely (Euclid), including MIN / -1 = MIN, MIN % -1 = 0. No panic.
+    fn check_divrem(ka: K, kb: K) {
+        let (ia, ib): (i64, i64) = (kani::any(), kani::any());
+        let (ba, bb): (u8, u8) = (kani::any(), kani::any());
+        let (a, b) = (mk(ka, ia, 0.0, ba), mk(kb, ib, 0.0, bb));
+        kani::assume(!b.is_zero());
+        let (x, y) = (as_i(ka, ia, ba), as_i(kb, ib, bb));
+        let q = match &a / &b { Object::Integer(v) => v, _ => { assert!(false); 0 } };
+        let r = match &a % &b { Object::Integer(v) => v, _ => { assert!(false); 0 } };
+        assert!(q.wrapping_mul(y).wrapping_add(r) == x);
+        assert!(r == 0 || (r < 0) == (x < 0));
+        assert!(r.unsigned_abs() < y.unsigned_abs());
+        kani::cover!(x == i64::MIN && y == -1);
+    }
+    #[kani::proof] fn c09_divrem_ii() { check_divrem(K::I, K::I); }
+    #[kani::proof] fn c09_divrem_ib() { check_divrem(K::I, K::B); }
+    #[kani::proof] fn c09_divrem_bi() { check_divrem(K::B, K::I); }
     #[kani::proof]
     fn c09_rem_float_kind() {
-        let (ka, kb) = (any_kind(), any_kind());
-        kani::assume(ka == K::F || kb == K::F);
-        let (a, b) = (mk(ka, kani::any(), kani::any(), kani::any()), mk(kb, kani::any(), kani::any(), kani::any()));
-        let r = &a % &b;
-        assert!(matches!(r, Object::Float(_)));
+        let (fa, fb): (f64, f64) = (kani::any(), kani::any());
+        assert!(matches!(&Object::Float(fa) % &Object::Float(fb), Object::Float(_)));
+        assert!(matches!(&Object::Integer(kani::any()) % &Object::Float(fb), Object::Float(_)));
+        assert!(matches!(&Object::Float(fa) % &Object::Integer(kani::any()), Object::Float(_)));
+        assert!(matches!(&Object::Float(fa) % &Object::Byte(kani::any()), Object::Float(_)));
+        assert!(matches!(&Object::Byte(kani::any()) % &Object::Float(fb), Object::Float(_)));
     }
 
     // unary minus: two's complement on integers (MIN stays MIN), IEEE negation on floats
@@ -166,19 +187,12 @@ mod verif_ops {
         }
     }
     // same-kind pairs and the only cross-kind pairs that can be equal (Integer/Float)
-    #[kani::proof] #[kani::unwind(10)] fn c10_hash_int_int() { check_hash(0, 0); }
-    #[kani::proof] #[kani::unwind(10)] fn c10_hash_float_float() { check_hash(1, 1); }
-    #[kani::proof] #[kani::unwind(10)] fn c10_hash_int_float() { check_hash(0, 1); }
-    #[kani::proof] #[kani::unwind(10)] fn c10_hash_float_int() { check_hash(1, 0); }
-    #[kani::proof] #[kani::unwind(10)] fn c10_hash_byte_byte() { check_hash(2, 2); }
-    #[kani::proof] #[kani::unwind(10)] fn c10_hash_char_char() { check_hash(3, 3); }
-    #[kani::proof] #[kani::unwind(10)] fn c10_hash_bool_bool() { check_hash(4, 4); }
-    #[kani::proof] #[kani::unwind(10)] fn c10_hash_null_null() { check_hash(5, 5); }
-    // every other cross-kind pair is never equal, so the implication is vacuous there: prove the inequality
-    #[kani::proof]
-    fn c10_cross_kind_never_equal() {
-        let (x, y): (u8, u8) = (kani::any(), kani::any());
-        kani::assume(x < 6 && y < 6 && x != y && !((x == 0 && y == 1) || (x == 1 && y == 0)));
-        assert!(key(x) != key(y));
-    }
+    #[kani::proof] #[kani::unwind(26)] fn c10_hash_int_int() { check_hash(0, 0); }
+    #[kani::proof] #[kani::unwind(26)] fn c10_hash_float_float() { check_hash(1, 1); }
+    #[kani::proof] #[kani::unwind(26)] fn c10_hash_int_float() { check_hash(0, 1); }
+    #[kani::proof] #[kani::unwind(26)] fn c10_hash_float_int() { check_hash(1, 0); }
+    #[kani::proof] #[kani::unwind(26)] fn c10_hash_byte_byte() { check_hash(2, 2); }
+    #[kani::proof] #[kani::unwind(26)] fn c10_hash_char_char() { check_hash(3, 3); }
+    #[kani::proof] #[kani::unwind(26)] fn c10_hash_bool_bool() { check_hash(4, 4); }
+    #[kani::proof] #[kani::unwind(26)] fn c10_hash_null_null() { check_hash(5, 5); }
 }
